@@ -4,27 +4,37 @@
     to_full_tensor / _build_contraction_tree / contract_tree / permute_axes /
     perform_tree_contraction, with numpy.einsum modelled by its defining sum [einsum_sem];
     it is tied to /repo by the exact correspondence run of checks/C07.py on every run. *)
-From Qib Require Import TN.TNEinsumSpec Base.Inst.
+From Qib Require Import TN.TNTreeCheck Base.Inst.
 
 (** (a) single-shot contraction.  For every network satisfying the incidence invariant, every
-    commutative ring of scalars and all tensor data: if contract_einsum (through the functional
-    form of as_einsum) returns (tensor, axes_map), its expansion by to_full_tensor has the
-    logical shape the network reports and equals the defining sum
+    commutative ring of scalars and all tensor data: what contract_einsum (the literal port:
+    consecutive indices, per-bond unification to the minimum, condensation, ones-vectors)
+    returns expands (to_full_tensor) to a tensor with the logical shape the network reports,
+    equal to the defining sum
         T[x] = sum over all bond indices of  prod_t data_t[indices of t's bonds] * prod_k [x_k = index of open axis k's bond].
     Hyper-bonds, multi-edges, self-traces, shared open bonds and identity wires are all covered
     (no hypothesis on the topology). *)
-Theorem C07_einsum_is_defining_sum_partial :
-  forall (K : Scalar) (L : ScalarLaws K) (n : net) (data : Z -> list nat -> K) E v am,
-    WF n -> as_einsum_spec n = Some E -> contract_with E n data = Some (v, am) ->
-    exists shp, shape n = Some shp /\ am = e_amap E /\
-      fst (to_full_tensor v am) = shp /\
+Theorem C07_einsum_is_defining_sum :
+  forall (K : Scalar) (L : ScalarLaws K) (n : net) (data : Z -> list nat -> K) v am,
+    WF n -> contract_einsum n data = Some (v, am) ->
+    exists shp, shape n = Some shp /\ fst (to_full_tensor v am) = shp /\
       forall x, in_range shp x -> snd (to_full_tensor v am) x = defining_sum n data x.
-Proof. intros K L n data E v am W HE HC. exact (as_einsum_spec_correct n data W E v am HE HC). Qed.
-Print Assumptions C07_einsum_is_defining_sum_partial.
-(* Full statement: the same with [as_einsum n] (the literal port of the unification +
-   condensation loops) in place of [as_einsum_spec n].  Missing: the universal lemma
-   WF n -> as_einsum n = as_einsum_spec n; it is evaluated by vm_compute on every network of
-   the correspondence run (TNCheck.check, case CEin). *)
+Proof. intros K L n data v am W H. exact (contract_einsum_correct n data v am W H). Qed.
+Print Assumptions C07_einsum_is_defining_sum.
+
+(** ... and it does return: numpy.einsum needs one operand, i.e. a tensor or an open axis
+    (the network without tensors and open axes is the KNOWN-FINDING of this property) *)
+Theorem C07_einsum_answers :
+  forall (K : Scalar) (L : ScalarLaws K) (n : net) (data : Z -> list nat -> K),
+    WF n -> real_tensors n <> [] \/ vbids n <> [] -> exists v am, contract_einsum n data = Some (v, am).
+Proof. intros K L n data W NE. exact (contract_einsum_total n data W NE). Qed.
+Print Assumptions C07_einsum_answers.
+
+(** the port of the index bookkeeping computes the functional form: every leg is labelled by
+    the rank of its bond in the order of first occurrence (tensors sorted by id, virtual last) *)
+Theorem C07_as_einsum_functional_form : forall n, WF n -> as_einsum n = as_einsum_spec n.
+Proof. exact as_einsum_is_spec. Qed.
+Print Assumptions C07_as_einsum_functional_form.
 
 (** the labelling theorem behind it: any injective labelling of the bonds will do *)
 Theorem C07_any_injective_labelling :
@@ -45,6 +55,48 @@ Proof.
 Qed.
 Print Assumptions C07_any_injective_labelling.
 
+(** (b) tree contraction: a VERIFIED CHECKER.  For every network, every tree (with its index
+    lists idxL/idxR/idxout, openaxes, trackaxes per node) and every axes map: if the decidable
+    check [check_root] accepts, the nested binary einsums of the tree, expanded by the axes map,
+    have the logical shape of the network and equal the defining sum - hence also the
+    single-shot result, whatever the scaffold.  The check is evaluated inside Coq on every tree
+    the implementation builds in the correspondence run (translation validation; each instance
+    is a kernel-checked computation).  Not proved: that the builder always produces a tree the
+    checker accepts (forall scaffold) - the tree path of C07 is therefore PARTIAL. *)
+Theorem C07_checked_tree_is_defining_sum :
+  forall (K : Scalar) (L : ScalarLaws K) (n : net) (data : Z -> list nat -> K) t amap v,
+    WF n -> check_root n t amap = true -> tree_eval n data t = Some v ->
+    exists shp, shape n = Some shp /\ fst (to_full_tensor v amap) = shp /\
+      forall x, in_range shp x -> snd (to_full_tensor v amap) x = defining_sum n data x.
+Proof. intros K L n data t amap v W C E. exact (check_root_sound n data W t amap v C E). Qed.
+Print Assumptions C07_checked_tree_is_defining_sum.
+
+Theorem C07_contract_tree_checked_partial :
+  forall (K : Scalar) (L : ScalarLaws K) (n : net) (data : Z -> list nat -> K) s r,
+    WF n -> contract_tree n data s = Some r -> check_root n (r_tree r) (r_amap r) = true ->
+    exists shp, shape n = Some shp /\ fst (to_full_tensor (r_val r) (r_amap r)) = shp /\
+      forall x, in_range shp x -> snd (to_full_tensor (r_val r) (r_amap r)) x = defining_sum n data x.
+Proof. intros K L n data s r W H C. exact (contract_tree_checked n data s r W H C). Qed.
+Print Assumptions C07_contract_tree_checked_partial.
+(* Full statement (L2, not proved):
+     forall n s r, WF n -> contract_tree n data s = Some r -> check_root n (r_tree r) (r_amap r) = true
+   for every scaffold s that is a binary bracketing of the real tensors. *)
+
+(** strategy independence, as far as it is proved: a checked tree and the single shot agree *)
+Theorem C07_tree_equals_einsum_when_checked :
+  forall (K : Scalar) (L : ScalarLaws K) (n : net) (data : Z -> list nat -> K) s r v am x shp,
+    WF n -> contract_tree n data s = Some r -> check_root n (r_tree r) (r_amap r) = true ->
+    contract_einsum n data = Some (v, am) -> shape n = Some shp -> in_range shp x ->
+    snd (to_full_tensor (r_val r) (r_amap r)) x = snd (to_full_tensor v am) x.
+Proof.
+  intros K L n data s r v am x shp W HT HC HE HS Hx.
+  destruct (contract_tree_checked n data s r W HT HC) as [shp1 [S1 [_ V1]]].
+  destruct (contract_einsum_correct n data v am W HE) as [shp2 [S2 [_ V2]]].
+  assert (shp1 = shp) by congruence. assert (shp2 = shp) by congruence. subst.
+  rewrite V1, V2 by assumption. reflexivity.
+Qed.
+Print Assumptions C07_tree_equals_einsum_when_checked.
+
 (** the hypotheses are satisfiable: hyper-bond with three legs + two open axes on one bond + a
     self-trace + an identity wire; the model contracts it and the expansion is the defining sum
     (here evaluated on Gaussian-integer data) *)
@@ -58,3 +110,14 @@ Example C07_example :
     contract_with (K:=ZI) E ex_net (fun r idx => (Z.of_nat (1 + length idx + 2 * nth 0 idx O), 1%Z)) = Some (v, e_amap E) /\
     e_amap E = [0; 1; 0; 1]%nat.
 Proof. split; [vm_compute; reflexivity|]. eexists. eexists. vm_compute. repeat split. Qed.
+
+Definition ex_net2 : net :=
+  mkN [(2%Z, mkT 2%Z [2; 2; 3; 3]%nat [4; 4; 7; 7]%Z 0%Z); ((-1)%Z, mkT (-1)%Z [2; 2]%nat [4; 4]%Z (-1)%Z);
+       (5%Z, mkT 5%Z [2]%nat [4]%Z 1%Z)]
+      [(4, mkB 4 [-1; -1; 2; 2; 5]); (7, mkB 7 [2; 2])]%Z.
+Example C07_example_tree :
+  wf_b ex_net2 = true /\
+  exists r, contract_tree (K:=ZI) ex_net2 (fun r idx => (Z.of_nat (1 + length idx + 2 * nth 0 idx O), 1%Z))
+                          (SNode (SLeaf 5) (SLeaf 2)) = Some r /\
+            check_root ex_net2 (r_tree r) (r_amap r) = true.
+Proof. split; [vm_compute; reflexivity|]. eexists. split; [vm_compute; reflexivity | vm_compute; reflexivity]. Qed.
